@@ -31,6 +31,8 @@ func c07Spec() map[string]spec.V {
 		"m":   {K: "map", M: map[string]spec.V{"k": {K: "int", S: "3"}, "in": {K: "map", M: map[string]spec.V{"z": {K: "string", S: "deep"}}}}},
 		"s":   {K: "slice", L: []spec.V{{K: "int", S: "1"}, {K: "string", S: "two"}}},
 		"d":   {K: "dec", S: "12.50"},
+		// locals the caller supplies: plain Go numbers under `$` keys are data like any other number
+		"$p0": {K: "int", S: "11"},
 		"rec": {K: "func", F: &spec.Fn{Name: "rec", Params: []string{"any"}, Variadic: true, Ret: "count"}},
 		// the same recorder behind a signature with a fixed first parameter: recf(a, [b, c]...) spreads a list
 		// that is evaluated after a
@@ -53,9 +55,10 @@ func checkProgs(c progCase) (msg string, unspec bool) {
 	rec := &spec.Recorder{}
 	data := spec.BuildMap(c07Spec(), rec)
 	refs := map[string]interface{}{"m": data["m"], "m.in": data["m"].(map[string]interface{})["in"], "s": data["s"], "d": data["d"], "this": data, "rec": data["rec"], "recf": data["recf"]}
-	env := &miniEnv{store: map[string]mv{}, data: c07ModelData()}
+	env := &miniEnv{store: map[string]mv{"$p0": mvInt(11)}, data: c07ModelData()}
 	r := formula.NewRunner()
 	if c.NoMap {
+		env.store = map[string]mv{}
 		env.data = map[string]mv{}
 		return checkProgsNoMap(c, r, env)
 	}
@@ -159,7 +162,7 @@ func bin(op string, a, b *ref.Node) *ref.Node {
 // genProg generates a program of the C07 sub-language; intLike hints that an
 // integer-valued expression is wanted.
 func genProg(t *rapid.T, depth int, wantInt bool) *ref.Node {
-	locals := []string{"$a", "$b", "$c", "$a", "$b", "$__v", "$_", "$\u7a0e\u7387", "$\u7a0e\u989d", "$a\u503c", "$\u00e9"}
+	locals := []string{"$a", "$b", "$c", "$a", "$b", "$__v", "$_", "$\u7a0e\u7387", "$\u7a0e\u989d", "$a\u503c", "$\u00e9", "$p0", "$p0"}
 	if depth <= 0 {
 		switch rapid.IntRange(0, 5).Draw(t, "leaf") {
 		case 0, 1:
